@@ -14,7 +14,7 @@ uint64_t G_L0; size_t G_data_off; uint64_t G_blk_stream0; size_t G_blk_off;
 typedef struct { uint8_t first[32]; size_t len; uint64_t nblocks; size_t num; uint8_t blk[64]; } s3_in;
 DECL_INPUT(s3_in);
 
-//@job name=sm3_update props=C03,C06 enforce=sm3_update replace=sm3_compress_blocks,memcpy timeout=900
+//@job name=sm3_update props=C03,C06 enforce=sm3_update replace=sm3_compress_blocks,memcpy timeout=2400 tier=thorough
 void h_sm3_update(void)
 {
 	INPUT(s3_in, I); ASSUME(I.len <= ((size_t)1 << 50) && I.num < 64 && I.nblocks <= ((uint64_t)1 << 56));
